@@ -251,6 +251,8 @@ class FilterWorld:
             if f in except_:
                 continue
             P.oblige(f"{prefix}.frame.self.{f}", z3.BoolVal(self.ekf.fields.get(f) is v))
+        new = sorted(set(self.ekf.fields) - set(self.old_fields) - set(except_))
+        P.oblige(f"{prefix}.frame.self.no_new_attributes", z3.BoolVal(not new), note=f"the call stored new attributes on the filter: {new}")
 
 
 class OneKeyDict:
